@@ -71,10 +71,22 @@ def run_search(family):
 def run_selftest(prop):
     """every stored seeded mutant of this property that is recorded as detected must still be detected"""
     out = dict(selftest=True, verified=0, errors=0, failures=[], undecided=[], mutants=[])
+    metas = []
     for meta_path in sorted(glob.glob(os.path.join(runner.VERIF, "seeded", "*", "meta.json"))):
         meta = json.load(open(meta_path))
-        if prop not in meta.get("detected_by", []):
-            continue
+        if prop in meta.get("detected_by", []):
+            metas.append(meta_path)
+    # at most VERIF_SELFTEST_MAX mutants per run (default 6): the property's own first, then evenly over the rest
+    cap = int(os.environ.get("VERIF_SELFTEST_MAX", "6") or 6)
+    own = [m for m in metas if os.path.basename(os.path.dirname(m)).startswith(prop + "-")]
+    rest = [m for m in metas if m not in own]
+    chosen = own[:cap]
+    if len(chosen) < cap and rest:
+        step = max(1, len(rest) // (cap - len(chosen)))
+        chosen += rest[::step][:cap - len(chosen)]
+    out["mutants_available"] = len(metas)
+    for meta_path in chosen:
+        meta = json.load(open(meta_path))
         d = os.path.dirname(meta_path)
         wt = "/var/tmp/verif_selftest_wt_%d" % os.getpid()
         scratch = tempfile.mkdtemp(prefix="verif_selftest_", dir="/var/tmp")
